@@ -2,18 +2,196 @@ import ShVerif.Model.C13
 import ShVerif.Proofs.C13
 /-
   C13 — Quote produces a word that expands back to the string.  Property theorems.
+
+  `quote` is the model of syntax.Quote, `lexWords` of Parser.Words on Quote's output shapes,
+  `expandLit` of expand.Literal (ShVerif/Model/C13.lean); all three are tied to the Go code on
+  every run.  Variants are `syntax.LangVariant` bit sets (`Lang = Nat`).
 -/
+set_option linter.unusedSimpArgs false
+
 namespace ShVerif.C13
 
-/-- An empty string is always quoted as `''`. -/
+/-! ## empty_quoted -/
+
+/-- An empty string is always quoted as `''`, in every variant. -/
 theorem empty_quoted (l : Lang) : quote l [] = .ok [0x27, 0x27] := by
   simp [quote]
 
-def quote_roundtrip_statement : Prop :=
-  ∀ (l : Lang) (s q : Bytes), validLang l = true → quote l s = .ok q →
-    ∃ w, lexWords (resolve l) q = .ok [w] ∧ expandLit w = .ok s
+/-! ## quote_roundtrip -/
 
-def quote_fails_iff_code_statement : Prop :=
-  ∀ (l : Lang) (s : Bytes), (∃ e, quote l s = .error e) ↔ codeFails l s = true
+/-- For every variant the parser accepts (the five variants and the legacy zero value) and every
+    byte string: when Quote succeeds, the parser reads its result back as **exactly one word**
+    (`lexWords … = ok [w]`: no parse error, nothing outside the literal/quoted fragment, not zero
+    or several words) made only of literal and quoted parts (`WordShape`: one bare literal, one
+    '…', one "…" without expansions, or one or more $'…'), and `expand.Literal` of that word is
+    exactly the original string. -/
+theorem quote_roundtrip (l : Lang) (s q : Bytes) (hl : validLang l = true)
+    (h : quote l s = .ok q) :
+    ∃ w, lexWords (resolve l) q = .ok [w] ∧ WordShape w ∧ expandLit w = .ok s :=
+  quote_roundtrip_main l s q hl h
+
+/-- The same, through `unquote` (parse as words, demand exactly one, expand it). -/
+theorem quote_unquote (l : Lang) (s q : Bytes) (hl : validLang l = true)
+    (h : quote l s = .ok q) : unquote (resolve l) q = .ok s := by
+  obtain ⟨w, h1, _, h3⟩ := quote_roundtrip l s q hl h
+  simp only [unquote, h1, h3]
+
+/-- Quote never produces an empty result. -/
+theorem quote_nonempty (l : Lang) (s q : Bytes) (hl : validLang l = true)
+    (h : quote l s = .ok q) : q ≠ [] := by
+  obtain ⟨w, h1, _, _⟩ := quote_roundtrip l s q hl h
+  intro e; subst e
+  simp [lexWords, inFragment, validUTF8, runes, runesF, lexF, finish] at h1
+
+/-! ## quote_fails_iff -/
+
+/-- What the code does, for **every** bit set `l`: Quote fails exactly when the string contains a
+    NUL byte, or `l.in(LangPOSIX)` and some rune is non-printable or invalid UTF-8, or
+    `l.in(LangMirBSDKorn)` and some non-printable rune is above U+FFFD. -/
+theorem quote_fails_iff_code (l : Lang) (s : Bytes) :
+    (∃ e, quote l s = .error e) ↔ codeFails l s = true :=
+  quote_fails_iff_codeFails l s
+
+theorem langIn_eq_of_ne_zero (l m : Nat) (hm : m = 2 ∨ m = 4) (h : l ≠ 0) :
+    langIn l m = (l == m) := by
+  unfold langIn
+  by_cases hle : l ≤ m
+  · rcases hm with hm | hm <;> subst hm
+    · have : l = 1 ∨ l = 2 := by omega
+      rcases this with rfl | rfl <;> decide
+    · have : l = 1 ∨ l = 2 ∨ l = 3 ∨ l = 4 := by omega
+      rcases this with rfl | rfl | rfl | rfl <;> decide
+  · have h1 : l &&& m ≤ m := Nat.and_le_right
+    have h2 : (l &&& m) ≠ l := by omega
+    have h3 : l ≠ m := by omega
+    rw [beq_eq_false_iff_ne.mpr h2, beq_eq_false_iff_ne.mpr h3]
+
+/-- The property's wording: with the variant understood as the rest of the package understands it
+    (`resolve`: the zero value means Bash), Quote fails exactly on the strings the variant cannot
+    represent.  **False of the code** for the legacy zero value — see `quote_fails_iff_zero`. -/
+def quote_fails_iff_statement : Prop :=
+  ∀ (l : Lang) (s : Bytes), validLang l = true →
+    ((∃ e, quote l s = .error e) ↔ specFails l s = true)
+
+/-- The statement holds for every non-zero bit set (in particular the five variants, LangAuto,
+    and bit sets that are no variant at all). -/
+theorem quote_fails_iff_partial (l : Lang) (s : Bytes) (h0 : l ≠ 0) :
+    (∃ e, quote l s = .error e) ↔ specFails l s = true := by
+  rw [quote_fails_iff_code]
+  have r : resolve l = l := by simp [resolve, h0]
+  simp only [codeFails, specFails, r, langIn_eq_of_ne_zero l 2 (Or.inl rfl) h0,
+    langIn_eq_of_ne_zero l 4 (Or.inr rfl) h0, langPOSIX, langMksh]
+
+/-- The counter-example: under the legacy zero value (documented as "the zero value is LangBash")
+    Quote refuses a newline with the POSIX error, although Bash quotes it as `$'\n'` and the
+    property calls the string representable. -/
+theorem quote_fails_iff_zero :
+    quote 0 [0x0a] = .error ⟨0, .posix⟩ ∧
+    quote langBash [0x0a] = .ok [0x24, 0x27, 0x5c, 0x6e, 0x27] ∧
+    specFails 0 [0x0a] = false := by
+  decide +kernel
+
+theorem quote_fails_iff_statement_false : ¬ quote_fails_iff_statement := by
+  intro h
+  have := (h 0 [0x0a] (by decide)).mp ⟨_, quote_fails_iff_zero.1⟩
+  rw [quote_fails_iff_zero.2.2] at this
+  cases this
+
+/-- The zero value behaves as POSIX **and** mksh at once, never as Bash. -/
+theorem legacy_zero_in_everything (m : Lang) : langIn 0 m = true := by
+  simp [langIn]
+
+/-! ## error kinds -/
+
+/-- Which error is reported, and that `quoteErrRange` ("rune out of range") is unreachable. -/
+theorem quote_error_kind (l : Lang) (s : Bytes) (e : QErr) (h : quote l s = .error e) :
+    (e.kind = .null ∧ s.contains 0x00 = true) ∨
+    (e.kind = .posix ∧ langIn l langPOSIX = true ∧ ∃ t ∈ runes s, nonPrint t.r = true) ∨
+    (e.kind = .mksh ∧ langIn l langMksh = true ∧ langIn l langPOSIX = false ∧
+      s.contains 0x00 = false ∧ ∃ t ∈ runes s, t.r > 0xFFFD ∧ isPrint t.r = false) := by
+  have hok := runes_ok s
+  by_cases hs : s = []
+  · subst hs; simp [quote] at h
+  unfold quote at h
+  simp only [hs, ↓reduceIte] at h
+  cases hsc : scan l (runes s) 0 false false with
+  | error e' =>
+    rw [hsc] at h; cases h
+    rcases scan_error l _ _ _ _ e hsc with ⟨a, t, m, b⟩ | ⟨a, a', t, m, b⟩
+    · exact Or.inl ⟨a, (contains_zero_iff s).mpr ⟨t, m, b⟩⟩
+    · exact Or.inr (Or.inl ⟨a, a', t, m, b⟩)
+  | ok r =>
+    obtain ⟨sc, np⟩ := r
+    rw [hsc] at h; simp only at h
+    obtain ⟨i1, _, i3⟩ := scan_ok l _ _ _ _ _ _ hsc
+    by_cases hb : (!sc && !np && !isKeyword s) = true
+    · simp only [hb, ↓reduceIte] at h; cases h
+    · simp only [hb, Bool.false_eq_true, ↓reduceIte] at h
+      cases hnp : np with
+      | false =>
+        rw [hnp] at h; simp only [Bool.false_eq_true, ↓reduceIte] at h
+        split at h <;> cases h
+      | true =>
+        rw [hnp] at h i3; simp only [↓reduceIte] at h
+        cases hd : dollarBody l (runes s) 0 false with
+        | ok body => rw [hd] at h; cases h
+        | error e' =>
+          rw [hd] at h; cases h
+          obtain ⟨a, b, t, m, c⟩ := dollar_error l _ _ _ e hok hd
+          simp only [Bool.false_or] at i3
+          obtain ⟨t0, m0, hn0⟩ := List.any_eq_true.mp i3.symm
+          have hposix : langIn l langPOSIX = false := by
+            cases hp : langIn l langPOSIX
+            · rfl
+            · have := (i1 t0 m0).2 hp; rw [this] at hn0; cases hn0
+          have hz : s.contains 0x00 = false := by
+            cases hc : s.contains 0x00
+            · rfl
+            · obtain ⟨t', m', h'⟩ := (contains_zero_iff s).mp hc
+              exact absurd h' (i1 t' m').1
+          exact Or.inr (Or.inr ⟨a, b, hposix, hz, t, m, c⟩)
+
+theorem quote_never_range (l : Lang) (s : Bytes) (o : Nat) : quote l s ≠ .error ⟨o, .range⟩ := by
+  intro h
+  rcases quote_error_kind l s _ h with ⟨a, _⟩ | ⟨a, _⟩ | ⟨a, _⟩ <;> cases a
+
+/-! ## Non-vacuity: every output shape and every error occurs -/
+
+-- bare: `a}` stays as it is
+example : quote langBash [0x61, 0x7d] = .ok [0x61, 0x7d] := by decide +kernel
+-- keyword: `if` → 'if'
+example : quote langPOSIX [0x69, 0x66] = .ok [0x27, 0x69, 0x66, 0x27] := by decide +kernel
+-- single quotes: `a b` → 'a b'
+example : quote langPOSIX [0x61, 0x20, 0x62] = .ok [0x27, 0x61, 0x20, 0x62, 0x27] := by
+  decide +kernel
+-- double quotes: `a'$` → "a'\$"
+example : quote langBash [0x61, 0x27, 0x24] = .ok [0x22, 0x61, 0x27, 0x5c, 0x24, 0x22] := by
+  decide +kernel
+-- $'…' with a hex escape, re-quoted for mksh only: ESC `1`
+example : quote langBash [0x1b, 0x31] = .ok [0x24, 0x27, 0x5c, 0x78, 0x31, 0x62, 0x31, 0x27] := by
+  decide +kernel
+example : quote langMksh [0x1b, 0x31] =
+    .ok [0x24, 0x27, 0x5c, 0x78, 0x31, 0x62, 0x27, 0x24, 0x27, 0x31, 0x27] := by decide +kernel
+example : unquote langMksh [0x24, 0x27, 0x5c, 0x78, 0x31, 0x62, 0x27, 0x24, 0x27, 0x31, 0x27] =
+    .ok [0x1b, 0x31] := by decide +kernel
+-- invalid UTF-8 byte → \xff; NBSP →  ; U+E0001 → \U000e0001
+example : quote langBash [0xff] = .ok [0x24, 0x27, 0x5c, 0x78, 0x66, 0x66, 0x27] := by
+  decide +kernel
+example : quote langZsh [0xc2, 0xa0] =
+    .ok [0x24, 0x27, 0x5c, 0x75, 0x30, 0x30, 0x61, 0x30, 0x27] := by decide +kernel
+example : quote langBats [0xf3, 0xa0, 0x80, 0x81] =
+    .ok [0x24, 0x27, 0x5c, 0x55, 0x30, 0x30, 0x30, 0x65, 0x30, 0x30, 0x30, 0x31, 0x27] := by
+  decide +kernel
+-- the three reachable errors, with their byte offsets
+example : quote langBash [0x61, 0x00] = .error ⟨1, .null⟩ := by decide +kernel
+example : quote langPOSIX [0x61, 0x62, 0x09] = .error ⟨2, .posix⟩ := by decide +kernel
+example : quote langMksh [0x61, 0xf3, 0xa0, 0x80, 0x81] = .error ⟨1, .mksh⟩ := by decide +kernel
+-- mksh passes a *printable* rune above U+FFFD (😀) raw: `😀 ` → '😀 '
+example : quote langMksh [0xf0, 0x9f, 0x98, 0x80, 0x20] =
+    .ok [0x27, 0xf0, 0x9f, 0x98, 0x80, 0x20, 0x27] := by
+  decide +kernel
+-- hypotheses of the theorems are satisfiable
+example : validLang 0 = true ∧ validLang langZsh = true := by decide
+example : ∃ l s q, validLang l = true ∧ quote l s = .ok q := ⟨1, [], _, rfl, rfl⟩
 
 end ShVerif.C13
